@@ -39,9 +39,9 @@ CLAIMED = {
  "C11": dict(level="exploration", technique="deterministic simulation with corruption faults: structure-aware mutation of request bodies, of documents returned by the simulated network and of values returned by the simulated Database; recover() around every task, deadlock detection and a step budget as oracle",
    text="Every scenario of the side-effect corpus is run with one hostile input placed at one of the three seams through which untrusted data reaches the library (HTTP body, Transport.Dereference result, Database return value); the fault is addressed by site, so it replays; a panic unwinding through library frames, a deadlock or exhausting 20000 seam steps is a violation.",
    note="Not coverage-guided fuzzing of the decoder: that is another technique (stated in DESIGN.md). The decoder is exercised only through these seams.", design="5/C11"),
- "C15": dict(level="exploration", engine="mapsim", technique="deterministic simulation of astool with Go map iteration order behind a seeded seam (build-time rewrite of every map range): output trees compared across seeds and with the shipped package; seeded extension ontologies must compile and be seed-independent",
-   text="astool is rebuilt with each `for range map` iterating in a seeded permutation of the canonical key order; the four shipped vocabularies are regenerated under many seeds (outputs must be byte-identical to each other and syntax-tree-identical to /repo/streams), an uninstrumented run cross-checks the rewriter, and generated extension vocabularies (multiple parents across vocabularies, mixed ranges, functional/non-functional, natural-language maps, withheld-from lists) must generate identically under several seeds and compile.",
-   note="Only compilation and seed-independence are claimed for extensions; 'satisfies C01/C12/C13' inherits their not-applicable. Map iteration inside dependencies (jennifer, encoding/json) is not instrumented; one range site that mutates its own map stays uncontrolled and is reported.", design="5/C15"),
+ "C15": dict(level="exploration", engine="mapsim", technique="deterministic simulation of astool with Go map iteration order behind a seeded seam (build-time rewrite of every map range): output trees compared across seeds and with the shipped package; seeded extension ontologies must compile, be seed-independent and expose exactly the properties their ontology gives each type; when astool contains goroutines their schedule is a second seeded seam (receive/send/start points, synctest scheduler)",
+   text="astool is rebuilt with each `for range map` iterating in a seeded permutation of the canonical key order; the four shipped vocabularies are regenerated under many seeds (outputs must be byte-identical to each other and syntax-tree-identical to /repo/streams), an uninstrumented run cross-checks the rewriter, and generated extension vocabularies (multiple parents across vocabularies, mixed ranges, functional/non-functional, natural-language maps, withheld-from lists) must generate identically under several seeds, compile, and declare on every generated type exactly the accessors the ontology calls for (domain over the type and its ancestors minus withheld lists). If the rewriter finds go statements or channel operations in astool (none today) astool runs under a seeded goroutine scheduler and every schedule must give the baseline tree.",
+   note="For extensions compilation, seed-independence and property exposure (the structural half of C12) are checked; the value-kind half of C12 and C01/C13 inherit their not-applicable. Map iteration inside dependencies (jennifer, encoding/json) is not instrumented; one range site that mutates its own map stays uncontrolled and is reported.", design="5/C15"),
  "C17": dict(level="exploration", technique="deterministic simulation: simulated federation with duplicated / concurrent deliveries of one activity under a seeded schedule, unreachable and garbled chain links, single-fault sweep on an eighth of the cases; model of the three forwarding conditions as oracle",
    text="Activities with reply chains through embedded values and dereferenced documents are delivered 1-3 times to one or two inboxes, sequentially or interleaved; the oracle computes the three conditions from the pre-run snapshot and the fault plan and compares FilterForwarding's input, the forwarding BatchDeliver (count, recipients, payload equality with the received activity) and the number of 'seen' records; under an injected fault a request that still reports success must have forwarded; across a crash and redelivery an activity is forwarded at most once.",
    note="Recipients accepted as member ids or as their inboxes. Sampling.", design="5/C17"),
